@@ -474,6 +474,10 @@ def scan_file(path: Path, fname: str, env: Env):
         wrapper = ""
         if ctx.startswith("comp:"):
             wrapper = _wrapper_chain(grand, parents)
+            if wrapper.split(">")[0] in ("any", "all", "next") and _has_effectful_call(grand):
+                # short-circuiting consumer with a body that may have side effects: which
+                # elements are evaluated depends on the iteration order
+                wrapper = wrapper + "!effects"
         if ctx.startswith("elt:"):
             wrapper = _wrapper_chain(parent, parents)
         if ctx == "star":
@@ -499,6 +503,32 @@ def scan_file(path: Path, fname: str, env: Env):
             }
         )
     return sites
+
+
+# calls that neither mutate checker state nor depend on anything but their arguments
+PURE_CALLS = {"isinstance", "issubclass", "len", "safe_isinstance", "safe_issubclass", "safe_in", "safe_hasattr", "hasattr",
+              "is_typing_name", "is_instance_of_typing_name", "callable", "type", "id", "str", "repr", "bool", "int", "tuple",
+              "startswith", "endswith", "get", "_contains_node", "is_union"}
+
+
+def _has_effectful_call(comp):
+    """Does the element expression / a condition of this comprehension call something that
+    is not known to be pure?  any()/all() stop at the first decisive element, so with an
+    effectful body the ORDER decides which elements are evaluated at all."""
+    roots = []
+    if isinstance(comp, ast.DictComp):
+        roots += [comp.key, comp.value]
+    else:
+        roots.append(comp.elt)
+    for g in comp.generators:
+        roots += g.ifs
+    for r in roots:
+        for n in ast.walk(r):
+            if isinstance(n, ast.Call) and _func_name(n.func) not in PURE_CALLS:
+                return True
+            if isinstance(n, (ast.Await, ast.Yield, ast.YieldFrom, ast.NamedExpr)):
+                return True
+    return False
 
 
 def _wrapper_chain(c, parents):
@@ -588,6 +618,7 @@ def is_generic(ctx):
         if head.startswith(("comp:GeneratorExp", "comp:ListComp", "elt:GeneratorExp", "elt:ListComp")):
             last = chain.split(">")
             # any wrapper in the chain that forgets the order makes the site order-free
+            # (a short-circuiting any/all with an effectful body is marked `!effects` and is not)
             return any(w in ("any", "all", "set", "frozenset", "sorted", "len") for w in last)
     return False
 
